@@ -13,8 +13,7 @@ namespace etl {
 /// number representation and converts them to an integer value.
 [[nodiscard]] constexpr auto atoll(char const* str) noexcept -> long long
 {
-    auto const result = strings::to_integer<long long>(str);
-    return result.value;
+    return static_cast<long long>(strings::to_integer_c<long long>(str, 10).value);
 }
 
 } // namespace etl
